@@ -150,6 +150,18 @@ theorem C18_writable (lib : List Nat) (r : Nat) (f : File) (hlib : lib.length = 
   unfold openRW
   simp [hver, hlib, hv]
 
+/-- "makes it openable for writing", over the source of the open itself: `can_write` and `File._check_header` as
+regenerated from nixio/file.py (`Generated/FormatConst.lean`, the translator of property C11: length test, the
+comparison with `HDF_FF_VERSION`, the version from which an id is demanded) are the model's `openRW`; and with the
+library's own `HDF_FF_VERSION` a successfully upgraded old file passes them. -/
+theorem C18_shape_open (lib : List Nat) (r : Nat) (f : File) :
+    Shape.openRWG lib f = openRW lib f ∧
+    (upToDate Shape.libVersionNat f = false → (upgrade Shape.libVersionNat r f).2 = none →
+      Shape.openRWG Shape.libVersionNat (upgrade Shape.libVersionNat r f).1 = .ok ()) := by
+  refine ⟨shape_open lib f, fun hold hok => ?_⟩
+  rw [shape_open]
+  exact C18_writable Shape.libVersionNat r f (by decide) hold hok
+
 /-! ## the tie to the source: the shape extracted from `nixio/cmd/upgrade.py` is the model
 
 `NixModel/Generated/UpgradeShape.lean` is rewritten from the source on every run (`harness/extract/upgradeshape.py`).
